@@ -913,7 +913,8 @@ pub fn run(repo: &str) -> Res<Out> {
     coq.push_str(&format!("Definition dispatch_features_ok : bool := {}.\n", if dispatch_ok { "true" } else { "false" }));
 
     let report = json!({
-        "ok": true, "source": path, "kernels": rep_kernels, "kernel_count": names.len(), "unsafe_fns_in_file": unsafe_fns_seen,
+        "ok": dispatch_ok, "summary": format!("{} unsafe kernels, {} access sites, dispatch feature checks {}", names.len(), total_accesses, if dispatch_ok { "ok" } else { "FAILED" }),
+        "source": path, "kernels": rep_kernels, "kernel_count": names.len(), "unsafe_fns_in_file": unsafe_fns_seen,
         "accesses_total": total_accesses, "entries": entries, "dispatch": dispatch, "dispatch_ok": dispatch_ok,
     });
     Ok(Out { coq, report })
